@@ -12,18 +12,18 @@ def run(tier, seed):
     run = Run("C11", tier, seed)
     M = (3, 4, 3)
     decs = []
-    r1 = E.run_chunks(M, [1, 3], CUTS, "tensor", ["xfast", "zfast", "reversed", "rotated"])
+    r1 = E.run_chunks(M, [1, 3, (1, 2, 3), (3, 1, 2)], CUTS, "tensor", ["xfast", "zfast", "reversed", "rotated"])
     run.add_tlc(r1, "Chunks: tensor-product cuts, exhaustive")
-    r2 = E.run_chunks(M, [2], CUTS_SMALL, "slab", ["xfast", "reversed"])
+    r2 = E.run_chunks(M, [2, (2, 1, 1)], CUTS_SMALL, "slab", ["xfast", "reversed"])
     run.add_tlc(r2, "Chunks: per-slab y/x cuts, exhaustive (reduced cut options)")
-    r3 = E.run_chunks(M, [1, 2], CUTS, "nested", ["xfast", "rotated", "reversed"], simulate=(6 if tier == "quick" else 60), seed=seed + 1)
+    r3 = E.run_chunks(M, [1, 2, (1, 3, 2)], CUTS, "nested", ["xfast", "rotated", "reversed"], simulate=(6 if tier == "quick" else 60), seed=seed + 1)
     run.add_tlc(r3, "Chunks: fully nested cuts, simulated")
     for r in (r1, r2, r3):
         if r.violated:
             raise RuntimeError("Chunks spec violates " + r.violated)
         decs += [p for p in r.printed if "chunks" in p]
     if tier == "thorough":
-        r4 = E.run_chunks((4, 4, 4), [1, 2, 3], {4: [[], [1], [2], [3], [1, 2], [1, 3], [2, 3], [1, 2, 3]]}, "tensor", ["xfast", "reversed"])
+        r4 = E.run_chunks((4, 4, 4), [1, 2, 3, (3, 2, 1), (1, 1, 2)], {4: [[], [1], [2], [3], [1, 2], [1, 3], [2, 3], [1, 2, 3]]}, "tensor", ["xfast", "reversed"])
         run.add_tlc(r4, "Chunks: 4x4x4, all tensor-product cuts (1..64 chunks)")
         decs += [p for p in r4.printed if "chunks" in p]
     seen = {}
@@ -34,7 +34,7 @@ def run(tier, seed):
     res = E.pmap(E.check_decomposition, jobs)
     for (d, _, _), fnds in zip(jobs, res):
         n = len(d["chunks"])
-        run.count(("dec", d["family"], n, d["order"], d["ghost"], tuple(sorted((c["x"][0], c["y"][0], c["z"][0]) for c in d["chunks"]))) if n >= 2 else None)
+        run.count(("dec", d["family"], n, d["order"], tuple(d["ghost"]), tuple(sorted((c["x"][0], c["y"][0], c["z"][0]) for c in d["chunks"]))) if n >= 2 else None)
         if not fnds:
             run.traces += 1
         for sig, what, rep in fnds:
@@ -75,7 +75,7 @@ def run(tier, seed):
                 "read through generated CarpetIOHDF5-shaped directories in the four layouts; every ETSim state (restart sequences with overlapping "
                 "iteration ranges, levels, layouts) is materialised and every admissible request compared bit-for-bit with the spec's Truth / "
                 "serving restart / order / times. Non-trivial = >= 2 chunks or >= 2 restarts")
-    run.assumptions = ["ghost width >= 1", "output strides 2 and 4, possibly different between restarts",
+    run.assumptions = ["ghost widths >= 1, equal or different between the axes", "output strides 2 and 4, possibly different between restarts",
                        "array values encode (variable, restart, iteration, level, x, y, z)"]
     return run.finish()
 
